@@ -65,7 +65,7 @@ pub const STORE_PROPS: &[PropInfo] = &[
 
 pub const WIRE_PROPS: &[PropInfo] = &[
     PropInfo { id: "C20", engine: Engine::Wire, level: "exploration", quick_runs: 6000, thorough_runs: 400000, watchdog_s: 30,
-        rule: "one case = 1-6 stream scenarios over a simulated byte pipe: round trips of 1-4 generated Request/Response values under fragmentation, short writes and EINTR; frames truncated at an arbitrary byte then EOF; random / plausible-header garbage; valid frames with header-biased byte changes; non-trivial = at least one round trip ran under fragmentation or EINTR and at least one malformed stream was rejected; distinct = distinct fingerprints of the scenario log" },
+        rule: "one case = 1-6 stream scenarios over a simulated byte pipe: round trips of 1-4 generated Request/Response values under fragmentation, short writes and EINTR; frames truncated at an arbitrary byte then EOF; random / plausible-header garbage; valid frames with header-biased byte changes; non-trivial = at least one round trip ran under fragmentation or EINTR and at least one malformed stream was rejected; distinct = distinct fingerprints of the scenario log; every eighth run index is instead an E1 history (sessions, autocommit statements, DDL, failing statements, vanishing clients, text ending in blanks / quotes / non-ASCII) driven through the real server request loop (process_request, session handling, row rendering) over per-connection BufReader/BufWriter on simulated streams with fragmentation, EINTR, pipelined Pings and broken frames before a disconnect, every response compared with the snapshot-isolation model; such a run is non-trivial when at least one Rows response and one session crossed the wire" },
 ];
 
 pub const THREAD_PROPS: &[PropInfo] = &[
@@ -190,6 +190,21 @@ pub fn profile_for(id: &str, rng: &mut Rng) -> Profile {
             p.w_ddl = 25;
             p.w_reopen = *rng.pick(&[0, 4]);
             p.constraints = rng.chance(50);
+        }
+        "C20" => {
+            // E5b: the history goes through the server; what matters is variety of result shapes
+            // (empty, wide, NULLs, non-ASCII text, long text), sessions and vanishing clients
+            p.max_sessions = rng.range(1, 3) as u32;
+            p.p_drop_session = rng.range(10, 40) as u32;
+            p.p_rollback = rng.range(10, 40) as u32;
+            p.w_failing = *rng.pick(&[4, 8]);
+            p.w_check = 14;
+            p.text_cols = true;
+            p.exotic_text = rng.chance(70);
+            p.constraints = rng.chance(40);
+            p.w_reopen = *rng.pick(&[0, 4]);
+            p.w_ddl = 8;
+            p.plan_probes = rng.chance(30);
         }
         "C16" => {
             p.w_failing = 10;
